@@ -287,14 +287,6 @@ func (u *fakeUp) handle(w []byte, proto string) (reply []byte, fail bool) {
 	case b.has('L'):
 		ntxt = 6
 	}
-	u.tr().Emit("up.send", "up", u.tag, "proto", proto, "tok", int(tok), "name", labelsJS(name), "cls", cls, "typ", typ,
-		"rcode", b.rcode, "ttl", b.ttl, "ttls", ttls, "tc", b.has('T'), "kind", kind, "nodata", b.has('N') || b.has('E'), "soa", b.has('N') || (b.rcode != 0 && b.has('A')), "opt", b.has('O'), "ntxt", ntxt)
-	if kind == "silent" {
-		return nil, false
-	}
-	if kind == "close" {
-		return nil, true
-	}
 	r := new(dns.Msg)
 	r.SetReply(q)
 	r.Rcode = b.rcode
@@ -360,6 +352,25 @@ func (u *fakeUp) handle(w []byte, proto string) (reply []byte, fail bool) {
 			&dns.EDNS0_SUBNET{Code: dns.EDNS0SUBNET, Family: 1, SourceNetmask: 24, SourceScope: 24, Address: net.IPv4(9, 9, 9, 0)},
 			&dns.EDNS0_PADDING{Padding: make([]byte, 17)})
 		r.Extra = append(r.Extra, o)
+	}
+	// the length of the reply as the proxy will account for it: uncompressed, without the upstream's OPT
+	r2 := r.Copy()
+	r2.Compress = false
+	var keep []dns.RR
+	for _, x := range r2.Extra {
+		if x.Header().Rrtype != dns.TypeOPT {
+			keep = append(keep, x)
+		}
+	}
+	r2.Extra = keep
+	ulen := r2.Len()
+	u.tr().Emit("up.send", "up", u.tag, "proto", proto, "tok", int(tok), "name", labelsJS(name), "cls", cls, "typ", typ,
+		"rcode", b.rcode, "ttl", b.ttl, "ttls", ttls, "tc", b.has('T'), "kind", kind, "nodata", b.has('N') || b.has('E'), "soa", b.has('N') || (b.rcode != 0 && b.has('A')), "opt", b.has('O'), "ntxt", ntxt, "ulen", ulen)
+	if kind == "silent" {
+		return nil, false
+	}
+	if kind == "close" {
+		return nil, true
 	}
 	r.Compress = r.Compress || ntxt > 0
 	out, err := r.Pack()
